@@ -77,6 +77,7 @@ type Tok struct {
 	ListMember bool     // ... that is a member of a statement list (program, block, function body)
 	StmtPath   string   // path of the statement this token starts (when StmtStart) or closes (BlockClose)
 	ExprStart  bool     // first token of a position parsed as a complete expression
+	ExprCore   bool     // ... that hangs directly on a statement
 	Ctx        []Ctx    // enclosing constructs, outermost first
 	Node       *ir.Node // owning node
 	PostfixOp  bool
@@ -173,6 +174,16 @@ func leftmost(n *ir.Node) *ir.Node {
 
 // fullExpr emits an expression in a position that is parsed as a complete
 // expression (marks ExprStart on its first token).
+// coreExpr: a complete expression that hangs directly on a statement (let
+// initialiser, expression statement, return value, condition, for-header part).
+func (e *emitter) coreExpr(n *ir.Node, min int) {
+	i := len(e.toks)
+	e.fullExpr(n, min)
+	if i < len(e.toks) {
+		e.toks[i].ExprCore = true
+	}
+}
+
 func (e *emitter) fullExpr(n *ir.Node, min int) {
 	i := len(e.toks)
 	e.expr(n, min, true)
@@ -343,7 +354,7 @@ func (e *emitter) stmt(n *ir.Node, idx int) {
 		e.word(n.Op, IdentDecl, n)
 		if n.Kids[0] != nil {
 			e.punct("=", OperatorTk, n)
-			e.fullExpr(n.Kids[0], 2)
+			e.coreExpr(n.Kids[0], 2)
 		}
 		e.term(n)
 	case ir.FuncDecl:
@@ -355,14 +366,14 @@ func (e *emitter) stmt(n *ir.Node, idx int) {
 		e.word("return", Keyword, n)
 		if n.Kids[0] != nil {
 			i := len(e.toks)
-			e.fullExpr(n.Kids[0], 2)
+			e.coreExpr(n.Kids[0], 2)
 			e.toks[i].NoNLBefore = true
 		}
 		e.term(n)
 	case ir.If:
 		e.word("if", Keyword, n)
 		e.punct("(", NoRole, n)
-		e.fullExpr(n.Kids[0], 2)
+		e.coreExpr(n.Kids[0], 2)
 		e.punct(")", NoRole, n)
 		e.sub(n.Kids[1], "t")
 		if n.Kids[2] != nil {
@@ -372,7 +383,7 @@ func (e *emitter) stmt(n *ir.Node, idx int) {
 	case ir.While:
 		e.word("while", Keyword, n)
 		e.punct("(", NoRole, n)
-		e.fullExpr(n.Kids[0], 2)
+		e.coreExpr(n.Kids[0], 2)
 		e.punct(")", NoRole, n)
 		e.sub(n.Kids[1], "b")
 	case ir.For:
@@ -384,19 +395,19 @@ func (e *emitter) stmt(n *ir.Node, idx int) {
 				e.word(in.Op, IdentDecl, in)
 				if in.Kids[0] != nil {
 					e.punct("=", OperatorTk, in)
-					e.fullExpr(in.Kids[0], 2)
+					e.coreExpr(in.Kids[0], 2)
 				}
 			} else {
-				e.fullExpr(in, 2)
+				e.coreExpr(in, 2)
 			}
 		}
 		e.punct(";", ForSemi, n)
 		if n.Kids[1] != nil {
-			e.fullExpr(n.Kids[1], 2)
+			e.coreExpr(n.Kids[1], 2)
 		}
 		e.punct(";", ForSemi, n)
 		if n.Kids[2] != nil {
-			e.fullExpr(n.Kids[2], 2)
+			e.coreExpr(n.Kids[2], 2)
 		}
 		e.punct(")", NoRole, n)
 		e.sub(n.Kids[3], "b")
@@ -423,7 +434,7 @@ func (e *emitter) stmt(n *ir.Node, idx int) {
 				e.force[lm] = true
 			}
 		}
-		e.fullExpr(x, 2)
+		e.coreExpr(x, 2)
 		e.term(n)
 	default:
 		panic("layout: not a statement: " + n.K.String())
